@@ -40,6 +40,8 @@ type Facts struct {
 	StartupOrder      []string          `json:"startupOrder"`
 	ConstructorOrder  []string          `json:"constructorOrder"`
 	DeepCopyWrites    []DeepCopyWrite   `json:"deepCopyWrites"`
+	PoolFns           []*Fn             `json:"poolFns"`
+	PoolMutable       []string          `json:"poolMutableFields"`
 	Notes             map[string]string `json:"notes,omitempty"`
 }
 
@@ -403,12 +405,20 @@ func main() {
 				if lhs == nil || cx == nil || lhs.Name != cx.Name {
 					return true
 				}
+				// the re-queue must be a statement of the error branch itself: one nested in a further condition
+				// (a retry budget, an error class) is not "always queued again"
+				for _, st := range ifs.Body.List {
+					if es, ok := st.(*ast.ExprStmt); ok {
+						if c2, ok := es.X.(*ast.CallExpr); ok {
+							if s2, ok := c2.Fun.(*ast.SelectorExpr); ok && s2.Sel.Name == "AddRateLimited" {
+								wl.ErrorRequeues = true
+							}
+						}
+					}
+				}
 				ast.Inspect(ifs.Body, func(m ast.Node) bool {
 					if c2, ok := m.(*ast.CallExpr); ok {
 						if s2, ok := c2.Fun.(*ast.SelectorExpr); ok {
-							if s2.Sel.Name == "AddRateLimited" {
-								wl.ErrorRequeues = true
-							}
 							if s2.Sel.Name == "Forget" {
 								wl.ErrorForgets = true
 							}
@@ -592,6 +602,8 @@ func main() {
 	}
 	sort.Slice(facts.DeepCopyWrites, func(i, j int) bool { return facts.DeepCopyWrites[i].Fn < facts.DeepCopyWrites[j].Fn })
 
+	poolFacts(fset, filepath.Join(*repo, "pkg/controller/ipam/multicidrset"), facts)
+
 	if *jout != "" {
 		b, _ := json.MarshalIndent(facts, "", " ")
 		_ = os.MkdirAll(filepath.Dir(*jout), 0o755)
@@ -604,6 +616,177 @@ func main() {
 			fail(err)
 		}
 	}
+}
+
+const poolType = "MultiCIDRSet"
+
+// isRecvLock matches recv.Lock() / recv.Unlock() / RLock / RUnlock on the embedded mutex of the pool
+func isRecvLock(e ast.Expr, recv string, which ...string) bool {
+	c, ok := e.(*ast.CallExpr)
+	if !ok {
+		return false
+	}
+	s, ok := c.Fun.(*ast.SelectorExpr)
+	if !ok {
+		return false
+	}
+	id, ok := s.X.(*ast.Ident)
+	if !ok || id.Name != recv {
+		return false
+	}
+	for _, w := range which {
+		if s.Sel.Name == w {
+			return true
+		}
+	}
+	return false
+}
+
+// poolFacts: the lock discipline of MultiCIDRSet's own mutex.  A field is mutable when some method assigns,
+// increments, deletes from or indexes-and-assigns it.  Every method is split in the part before its
+// `s.Lock(); defer s.Unlock()` pair (an entry of its own, not holding the lock) and the part after it
+// (`<name>$locked`, holding it); any other lock operation is an `unknown` fact.
+func poolFacts(fset *token.FileSet, dir string, facts *Facts) {
+	files := parseDir(fset, dir)
+	mutable := map[string]bool{}
+	methods := map[string]bool{}
+	type md struct {
+		fd   *ast.FuncDecl
+		recv string
+	}
+	var ms []md
+	for _, f := range files {
+		for _, d := range f.Decls {
+			fd, ok := d.(*ast.FuncDecl)
+			if !ok || fd.Body == nil {
+				continue
+			}
+			typ, recv := recvTypeName(fd)
+			if typ != poolType {
+				continue
+			}
+			methods[fd.Name.Name] = true
+			ms = append(ms, md{fd, recv})
+			fieldOf := func(e ast.Expr) string {
+				for {
+					switch x := e.(type) {
+					case *ast.IndexExpr:
+						e = x.X
+						continue
+					case *ast.ParenExpr:
+						e = x.X
+						continue
+					case *ast.StarExpr:
+						e = x.X
+						continue
+					case *ast.SelectorExpr:
+						if id, ok := x.X.(*ast.Ident); ok && id.Name == recv {
+							return x.Sel.Name
+						}
+						return ""
+					}
+					return ""
+				}
+			}
+			ast.Inspect(fd.Body, func(n ast.Node) bool {
+				switch x := n.(type) {
+				case *ast.AssignStmt:
+					for _, l := range x.Lhs {
+						if fn := fieldOf(l); fn != "" {
+							mutable[fn] = true
+						}
+					}
+				case *ast.IncDecStmt:
+					if fn := fieldOf(x.X); fn != "" {
+						mutable[fn] = true
+					}
+				case *ast.CallExpr:
+					if id, ok := x.Fun.(*ast.Ident); ok && id.Name == "delete" && len(x.Args) > 0 {
+						if fn := fieldOf(x.Args[0]); fn != "" {
+							mutable[fn] = true
+						}
+					}
+				case *ast.UnaryExpr:
+					if x.Op == token.AND {
+						if fn := fieldOf(x.X); fn != "" {
+							mutable[fn] = true // address taken: may be written through the pointer
+						}
+					}
+				}
+				return true
+			})
+		}
+	}
+	for k := range mutable {
+		facts.PoolMutable = append(facts.PoolMutable, k)
+	}
+	sort.Strings(facts.PoolMutable)
+	for _, m := range ms {
+		fd, recv := m.fd, m.recv
+		name := poolType + "." + fd.Name.Name
+		pre := &Fn{Name: name, Root: ast.IsExported(fd.Name.Name), Pos: fset.Position(fd.Pos()).String()}
+		post := &Fn{Name: name + "$locked", HoldsLock: true, Acquires: true, Pos: fset.Position(fd.Pos()).String()}
+		lockAt := -1
+		stmts := fd.Body.List
+		prologue := map[ast.Node]bool{}
+		for i := 0; i+1 < len(stmts); i++ {
+			es, ok := stmts[i].(*ast.ExprStmt)
+			if !ok || !isRecvLock(es.X, recv, "Lock") {
+				continue
+			}
+			if ds, ok := stmts[i+1].(*ast.DeferStmt); ok && isRecvLock(ds.Call, recv, "Unlock") {
+				lockAt = i
+				prologue[es.X] = true
+				prologue[ds.Call] = true
+				break
+			}
+		}
+		scan := func(fn *Fn, list []ast.Stmt) {
+			calls := map[string]bool{}
+			for _, st := range list {
+				ast.Inspect(st, func(n ast.Node) bool {
+					switch x := n.(type) {
+					case *ast.FuncLit:
+						fn.Unknown = true
+						fn.Why = append(fn.Why, "closure in a pool method at "+fset.Position(x.Pos()).String())
+					case *ast.GoStmt:
+						fn.Unknown = true
+						fn.Why = append(fn.Why, "go statement in a pool method at "+fset.Position(x.Pos()).String())
+					case *ast.CallExpr:
+						if isRecvLock(x, recv, "Lock", "Unlock", "RLock", "RUnlock", "TryLock") && !prologue[x] {
+							fn.Unknown = true
+							fn.Why = append(fn.Why, "lock operation outside the Lock/defer Unlock pair at "+fset.Position(x.Pos()).String())
+						}
+						if s, ok := x.Fun.(*ast.SelectorExpr); ok {
+							if id, ok := s.X.(*ast.Ident); ok && id.Name == recv && methods[s.Sel.Name] {
+								calls[poolType+"."+s.Sel.Name] = true
+							}
+						}
+					case *ast.SelectorExpr:
+						if id, ok := x.X.(*ast.Ident); ok && id.Name == recv && mutable[x.Sel.Name] {
+							fn.Touches = true
+						}
+					}
+					return true
+				})
+			}
+			for k := range calls {
+				fn.Calls = append(fn.Calls, k)
+			}
+			sort.Strings(fn.Calls)
+		}
+		if lockAt < 0 {
+			scan(pre, stmts)
+			facts.PoolFns = append(facts.PoolFns, pre)
+			continue
+		}
+		scan(pre, stmts[:lockAt])
+		pre.Calls = append(pre.Calls, post.Name)
+		sort.Strings(pre.Calls)
+		scan(post, stmts[lockAt:])
+		facts.PoolFns = append(facts.PoolFns, pre, post)
+	}
+	sort.Slice(facts.PoolFns, func(i, j int) bool { return facts.PoolFns[i].Name < facts.PoolFns[j].Name })
 }
 
 func uniq(l []string) []string {
@@ -655,6 +838,16 @@ func lean(f *Facts) string {
 		b.WriteString("\n")
 	}
 	b.WriteString("]⟩\n\n")
+	b.WriteString("/-- lock discipline of the pool's own mutex (package multicidrset): a method is split at its\n`Lock(); defer Unlock()` pair; `touches` = accesses a field some method writes -/\ndef poolGraph : Graph := ⟨[\n")
+	for i, fn := range f.PoolFns {
+		fmt.Fprintf(&b, "  ⟨%q, %s, %s, %s, %s, %s, %s, %s⟩", fn.Name, lb(fn.HoldsLock), lb(fn.Acquires), lb(fn.Touches), lb(fn.Root), lb(fn.Exempt), lb(fn.Unknown), lstr(fn.Calls))
+		if i+1 < len(f.PoolFns) {
+			b.WriteString(",")
+		}
+		b.WriteString("\n")
+	}
+	b.WriteString("]⟩\n\n")
+	fmt.Fprintf(&b, "def poolMutableFields : List String := %s\n\n", lstr(f.PoolMutable))
 	b.WriteString("/-- (loop, error branch re-queues, success path forgets and the error branch does not) -/\ndef workerLoops : List (String × Bool × Bool) := [")
 	for i, w := range f.WorkerLoops {
 		if i > 0 {
